@@ -83,6 +83,8 @@ def regenerate(steps):
     for step in steps:
         if step.startswith("sol:"):
             cmd = ["python3", os.path.join(EXTRACT, "sol_scan.py"), REPO, tmp]
+        elif step.startswith("proto:"):
+            cmd = ["python3", os.path.join(EXTRACT, "proto_scan.py"), REPO, tmp]
         else:
             cmd = [os.path.join(EXTRACT, "bin", "extract"), "-repo", REPO, "-out", tmp, "-step", step]
         rc, out, dt = run(cmd, cwd=EXTRACT, env=GOENV, timeout=900)
